@@ -272,6 +272,9 @@ class Run(object):
                            and e.get("msg") in (consts.MSG_REPLY, consts.MSG_EXCEPTION))
             if mode == "dup":
                 cand = [e["seq"] for e in mine if e["seq"] in answered]
+                pref = [e["seq"] for e in mine if e["seq"] in answered and e.get("kind") == "a" and not e.get("hidden")]
+                if pref and i % 2 == 0:
+                    cand = pref         # an asynchronous result the program still holds
             elif mode == "steal":
                 cand = [e["seq"] for e in mine if e["seq"] not in answered and e.get("kind") == "a"
                         and not e.get("hidden")]
@@ -406,6 +409,15 @@ class Run(object):
             obs["dead" + side] = "T" if conn.closed else "F"
             obs["inbox" + side] = len(self.net.streams[side].inbox)
         obs["usable"] = self.usable
+        # what each asynchronous result holds NOW (an outcome, once given, must not change)
+        obs["final"] = {}
+        for (side, cid), ar in self.asyncs.items():
+            if side == "A" and (side, cid) in self.outcomes:
+                try:
+                    now = self.classify_val(ar.value)
+                except BaseException as ex:  # noqa
+                    now = self.classify_exc(ex)
+                obs["final"]["%s" % (cid,)] = (list(self.outcomes[(side, cid)][0]), list(now))
 
 
 # ---------------------------------------------------------------------------------------------- abstraction
@@ -705,6 +717,10 @@ def oracle(run):
             if kind != want or (o in ("v", "r", "x") and payload != p):
                 return ("%s: handler produced %s/%d, requester got %s/%d" % (who, o, p, kind, payload), "C08:misrouted")
     # a duplicate hand-built response for an answered request must not reach anybody
+    for cid, (first, now) in obs.get("final", {}).items():
+        if first != now:
+            return ("asynchronous request cid %s was given %r and later holds %r: a second response was delivered to it"
+                    % (cid, first, now), "C08:second-response-delivered")
     for (side, key), lst in run.outcomes.items():
         if len(lst) > 1:
             return ("request %s of %s was given %d outcomes" % (key, side, len(lst)), "C08:requester-outcomes")
